@@ -1,6 +1,78 @@
 // Family-specific operations (internals reached through verif_hooks).
 use crate::Ctx;
+use std::panic::{catch_unwind, AssertUnwindSafe};
 
-pub fn dispatch(_ctx: &mut Ctx, _op: &str, _f: &[&str]) -> Option<String> {
-    None
+
+pub fn hex_decode(s: &str) -> Vec<u8> {
+    let b = s.as_bytes();
+    let mut out = Vec::with_capacity(b.len() / 2);
+    let mut i = 0;
+    while i + 1 < b.len() {
+        let h = (b[i] as char).to_digit(16).unwrap_or(0) as u8;
+        let l = (b[i + 1] as char).to_digit(16).unwrap_or(0) as u8;
+        out.push(h * 16 + l);
+        i += 2;
+    }
+    out
+}
+
+pub fn hex_encode(b: &[u8]) -> String {
+    let mut s = String::with_capacity(b.len() * 2);
+    for x in b {
+        s.push_str(&format!("{:02x}", x));
+    }
+    s
+}
+
+/// CR <id> <chunk hex, comma separated> <script of p/r/b>
+fn char_reader_script(chunks: &str, script: &str) -> String {
+    let chunks: Vec<Vec<u8>> = if chunks.is_empty() {
+        vec![]
+    } else {
+        chunks.split(',').map(hex_decode).collect()
+    };
+    let script = script.to_string();
+    match catch_unwind(AssertUnwindSafe(|| {
+        scryer_prolog::verif_hooks::char_reader_script(chunks, &script)
+    })) {
+        Ok(o) => o.join(" "),
+        Err(_) => "PANIC".into(),
+    }
+}
+
+/// U8 <id> <hex bytes>: std's decoding of the whole byte string, item by item.
+fn std_decode(bytes: &[u8]) -> String {
+    let mut out: Vec<String> = Vec::new();
+    let mut rest = bytes;
+    loop {
+        match std::str::from_utf8(rest) {
+            Ok(s) => {
+                for c in s.chars() {
+                    out.push(format!("c{:x}", c as u32));
+                }
+                break;
+            }
+            Err(e) => {
+                let v = e.valid_up_to();
+                for c in std::str::from_utf8(&rest[..v]).unwrap().chars() {
+                    out.push(format!("c{:x}", c as u32));
+                }
+                let n = e.error_len().unwrap_or(rest.len() - v);
+                out.push(format!("x{}", hex_encode(&rest[v..v + n])));
+                rest = &rest[v + n..];
+            }
+        }
+    }
+    out.join(" ")
+}
+
+pub fn dispatch(_ctx: &mut Ctx, op: &str, f: &[&str]) -> Option<String> {
+    match op {
+        "CR" => Some(char_reader_script(
+            f.get(2).copied().unwrap_or(""),
+            f.get(3).copied().unwrap_or(""),
+        )),
+        "U8" => Some(std_decode(&hex_decode(f.get(2).copied().unwrap_or("")))),
+        _ => None,
+    }
 }
